@@ -244,7 +244,7 @@ def walk (sc : Nat) (peer : Option Nat) : List (AsE × Nat) → Nat →
     match pickHop sc peer x.1 x.2 mtu with
     | .error s => .error s
     | .ok (hf, mtu1) =>
-      match walk sc peer rest (min mtu1 (x.1.mtu % 2 ^ AS_MTU_CAST_BITS)) with
+      match walk sc peer rest (min mtu1 (min x.1.mtu AS_MTU_SAT)) with
       | .error s => .error s
       | .ok (m, ifs, hops) => .ok (m, hopIfs sc peer x.1 x.2 hf ++ ifs, hf :: hops)
 
